@@ -1,9 +1,10 @@
 (* Time and memory limits (C15): Engine::next's periodic limit check (search/mod.rs:589-614), the
    memory estimate (get_memory_usage_mb), and the post-hoc error mapping of Model::solve /
    minimize / enumerate_with_stats (model/core.rs).  The depth-first search of Model/Search.v is
-   re-run with an iteration counter: the engine's outer loop is entered (i) when a stalled node is
-   entered, (ii) when the consumer asks for the next solution after one was yielded, (iii) after
-   a child subtree is exhausted and its parent iterator is popped.  Every such entry increments
+   re-run with an iteration counter: the engine's outer loop is entered (i) at the first call of
+   next(), (ii) when the consumer asks for the next solution after one was yielded, (iii) after a
+   child subtree is exhausted and its parent iterator is popped (descending into a stalled child
+   `continue`s the inner while loop and does not pass the check).  Every such entry increments
    iteration_count and, when it is a multiple of the check interval, consults the clock (an
    oracle `clock : nat -> bool` on the check index) and then the memory estimate. *)
 Require Import Selen.Model.Prelude Selen.Model.Dom Selen.Model.Views Selen.Model.PropDefs.
@@ -51,11 +52,8 @@ Section Limits.
     match fuel with
     | O => LFuel
     | S f =>
-      match tick depth l with
-      | inr (w, l') => LStop [] best l' (SLimit w) depth
-      | inl l1 =>
         match first_unassigned s 0 with
-        | None => LStop [] best l1 SExhausted depth
+        | None => LStop [] best l SExhausted depth
         | Some pivot =>
           let mid := dmid (sget s pivot) in
           let child (branchp : prop) (best : option Z) (l : lstate) : lres :=
@@ -70,17 +68,18 @@ Section Limits.
             | PDone s' =>
               if all_fixed s' then
                 if resume then
-                  (* the consumer asks again: the loop is entered again at this depth *)
+                  (* the consumer asks again: the outer loop is entered again at this depth *)
                   match tick depth l with
                   | inr (w, l') => LStop [s'] (on_solution m best s') l' (SLimit w) depth
                   | inl l' => LStop [s'] (on_solution m best s') l' SExhausted depth
                   end
                 else LStop [s'] (on_solution m best s') l SConsumer depth
               else
+                (* stalled: push and `continue` the inner while loop with the new iterator: no tick *)
                 match dfs_lim f (S depth) ps2 s' best l with
                 | LFuel => LFuel
                 | LStop sols b l' SExhausted _ =>
-                  (* subtree exhausted: its iterator is popped, the loop is entered again here *)
+                  (* subtree exhausted: its iterator is popped, the outer loop is entered again here *)
                   match tick depth l' with
                   | inr (w, l'') => LStop sols b l'' (SLimit w) depth
                   | inl l'' => LStop sols b l'' SExhausted depth
@@ -88,7 +87,7 @@ Section Limits.
                 | r => r
                 end
             end in
-          match child (mk_leq (VVar pivot) (VConst mid)) best l1 with
+          match child (mk_leq (VVar pivot) (VConst mid)) best l with
           | LFuel => LFuel
           | LStop sols1 b1 l2 SExhausted _ =>
             match child (mk_gt (VVar pivot) (VConst mid)) b1 l2 with
@@ -98,7 +97,6 @@ Section Limits.
           | r => r
           end
         end
-      end
     end.
 
   (* search_with_timeout_and_memory (LP block off): root propagation, then the engine *)
@@ -109,7 +107,12 @@ Section Limits.
     | PFail => inr None                                (* Search::Done(None) *)
     | PDone s' =>
       if all_fixed s' then inr (Some s')               (* Search::Done(Some space) *)
-      else inl (dfs_lim (S (total_size s')) 0 ps s' None (mkl 0 0))
+      else
+        (* first call of Engine::next: the outer loop is entered once *)
+        match tick 0 (mkl 0 0) with
+        | inr (w, l') => inl (LStop [] None l' (SLimit w) 0)
+        | inl l1 => inl (dfs_lim (S (total_size s')) 0 ps s' None l1)
+        end
     end.
 End Limits.
 
@@ -122,41 +125,41 @@ Definition timed_out (why : stop) (late : bool) : bool :=
    / result, in this order (core.rs:1501-1583).  `late` = what the real clock says when solve asks
    after the iterator returned (true whenever a check already saw the limit expired). *)
 Definition solve_lim (pick : sched) (interval : Z) (clock : Z -> bool) (mlimit : option Z)
-           (buildmem late : bool) (ps : list prop) (s : store) : outcome :=
-  if buildmem then OMemory else
+           (buildmem late : bool) (ps : list prop) (s : store) : outcome * Z :=
+  if buildmem then (OMemory, 0) else
   match search_lim pick None interval clock mlimit false ps s with
-  | inr None => ONoSolution
-  | inr (Some t) => OOk t
-  | inl LFuel => OFuelOut
+  | inr None => (ONoSolution, 0)
+  | inr (Some t) => (OOk t, 0)
+  | inl LFuel => (OFuelOut, 0)
   | inl (LStop sols _ l why depth) =>
-    if timed_out why late then OTimeout
-    else if mem_exceeded mlimit depth (iters l) then OMemory
-    else match sols with t :: _ => OOk t | [] => ONoSolution end
+    (if timed_out why late then OTimeout
+     else if mem_exceeded mlimit depth (iters l) then OMemory
+     else match sols with t :: _ => OOk t | [] => ONoSolution end, checks l)
   end.
 
 (* Model::minimize (search path): iterate to the first None, keep the last solution (core.rs:432-557) *)
 Definition minimize_lim (pick : sched) (interval : Z) (clock : Z -> bool) (mlimit : option Z)
-           (buildmem late : bool) (obj : view) (ps : list prop) (s : store) : outcome :=
-  if buildmem then OMemory else
+           (buildmem late : bool) (obj : view) (ps : list prop) (s : store) : outcome * Z :=
+  if buildmem then (OMemory, 0) else
   match search_lim pick (Some obj) interval clock mlimit true ps s with
-  | inr None => ONoSolution
-  | inr (Some t) => OOk t
-  | inl LFuel => OFuelOut
+  | inr None => (ONoSolution, 0)
+  | inr (Some t) => (OOk t, 0)
+  | inl LFuel => (OFuelOut, 0)
   | inl (LStop sols _ l why depth) =>
-    if timed_out why late then OTimeout
-    else if mem_exceeded mlimit depth (iters l) then OMemory
-    else match last (map Some sols) None with Some t => OOk t | None => ONoSolution end
+    (if timed_out why late then OTimeout
+     else if mem_exceeded mlimit depth (iters l) then OMemory
+     else match last (map Some sols) None with Some t => OOk t | None => ONoSolution end, checks l)
   end.
 
 (* Model::enumerate_with_stats / enumerate consumed until the first None: the solutions collected *)
 Definition enumerate_lim (pick : sched) (interval : Z) (clock : Z -> bool) (mlimit : option Z)
-           (buildmem : bool) (ps : list prop) (s : store) : option (list store) :=
-  if buildmem then Some [] else
+           (buildmem : bool) (ps : list prop) (s : store) : option (list store * Z) :=
+  if buildmem then Some ([], 0) else
   match search_lim pick None interval clock mlimit true ps s with
-  | inr None => Some []
-  | inr (Some t) => Some [t]
+  | inr None => Some ([], 0)
+  | inr (Some t) => Some ([t], 0)
   | inl LFuel => None
-  | inl (LStop sols _ _ _ _) => Some sols
+  | inl (LStop sols _ l _ _) => Some (sols, checks l)
   end.
 
 Definition never : Z -> bool := fun _ => false.
